@@ -11,6 +11,12 @@ duplicates (4005 + 573); it is the known finding `field-of-other-class`.  Accord
   * `field_xref_on_owner_partial`, `one_field_analysis_partial` are the property restricted to accesses
     from the declaring class (`FieldAccessesWithinOwnClass`);
   * `C14_full` is the property as stated and `C14_refuted` its kernel-checked refutation (two classes).
+Scope of the statements: the model identifies a Python object with the key the code registers it under
+(class name; (class, name, descriptor); string value).  On programs whose class names are distinct across
+the added DEX files (`AgVerif.C16.DistinctClassNames`; C16 proves that the keying is injective there) this
+mirrors the code.  For a program with a repeated class name the theorems below are statements about the
+key-merged model only (`AgVerif.C16.duplicate_class_is_merged`): the code keeps the ClassAnalysis of the DEX
+added last; that case is judged on the real code, on objects, by the duplicate-class stream of the harness.
 -/
 import AgVerif.Proof.XrefView
 
